@@ -14,7 +14,7 @@ Fixpoint pfirst_bad (cfg : config) (s : st) (steps : list (pop * obs)) (n : nat)
   | [] => None
   | (o, expected) :: rest =>
       let '(r, s') := pstep cfg s o in
-      if obs_eqb (observe r s') expected then pfirst_bad cfg s' rest (S n) else Some n
+      if o_skip expected || obs_eqb (observe r s') expected then pfirst_bad cfg s' rest (S n) else Some n
   end.
 
 Definition pagree (c : pcase) : bool :=
